@@ -221,7 +221,7 @@ def s20_circles(ctx):
     from fractopo.analysis.random_sampling import NetworkRandomSampler, RandomChoice
     from fractopo.general import crop_to_target_areas
 
-    res = StreamResult("S20-circles", rule="random target circles (radius 5..50, any centre) x min radii x both random-choice modes x RNG seeds; "
+    res = StreamResult("S20-circles", rule="random target circles (radius 5..50, any centre; every sampler of the run has the same name) x min radii x both random-choice modes x RNG seeds; radius and containment judged against the circle the sampler was given; "
                        "sample network compared with the direct crop of the source traces to the sample circle; non-trivial = distinct sample")
     rng = rng_for(ctx.seed, "S20c")
     reqs, meta = [], []
@@ -239,8 +239,10 @@ def s20_circles(ctx):
         sampler = NetworkRandomSampler(trace_gdf=traces, area_gdf=gpd.GeoDataFrame(geometry=[target]), min_radius=rmin, snap_threshold=0.001, random_choice=mode, name="s")
         determine = i % 10 == 0
         sample = sampler.random_network_sample(determine_branches_nodes=determine)
-        Rmax = sampler.max_radius
-        c0 = sampler.target_area_centroid
+        # the target circle's radius and centre are taken from the circle the sampler was GIVEN, not read back from the sampler (all samplers of a
+        # run share one name, as networks left at their default name do: nothing may be remembered per name)
+        Rmax = float(np.sqrt(target.area / np.pi))
+        c0 = target.centroid
         reqs.append(f"circle R={rat(Rmax)} r={rat(sample.radius)} rmin={rat(rmin)} cx={rat(c0.x)} cy={rat(c0.y)} x={rat(sample.target_centroid.x)} y={rat(sample.target_centroid.y)}")
         # sample network = source traces clipped to the sample circle
         net = sample.network_maybe
